@@ -269,6 +269,80 @@ def run(prop, tier, spec):
     return res
 
 
+ORD_CODE = {"rlx": 0, "acq": 1, "rel": 2, "acqrel": 3, "sc": 4}
+
+
+def sequential_events(paths, c):
+    """Sequential reading of a template from count `c`: the atomic events the compiled operation must
+    perform when nothing else touches the counter."""
+    from z3 import BitVecVal, substitute, simplify, And, is_true, BoolVal
+    hits = []
+    for p in paths:
+        m, sub, evs = c, [], []
+        for e in p["events"]:
+            k = e["kind"]
+            if k == "R":
+                sub.append((e["rval"], BitVecVal(m, 64)))
+                evs.append((3, ORD_CODE[e["ord"]], 0))
+            elif k == "RMW":
+                sub.append((e["rval"], BitVecVal(m, 64)))
+                nv = simplify(substitute(e["wval"], *sub)).as_long()
+                if e["op"] == "fetch_add":
+                    evs.append((1, ORD_CODE[e["ord"]], (nv - m) % (1 << 64)))
+                else:
+                    evs.append((2, ORD_CODE[e["ord"]], (m - nv) % (1 << 64)))
+                m = nv
+            elif k == "W":
+                raise RuntimeError("plain atomic store in a template: not covered by the recording stubs")
+            elif k == "F":
+                evs.append((4, ORD_CODE[e["ord"]], 0))
+        pc = simplify(substitute(And(*p["pc"]), *sub)) if p["pc"] else BoolVal(True)
+        if is_true(pc):
+            hits.append(evs)
+    if len(hits) != 1:
+        raise RuntimeError(f"template is not deterministic from count {c}: {len(hits)} paths apply")
+    return hits[0]
+
+
+def write_expected(templates):
+    """Generate kani/src/c02_expected.rs (only rewritten when its content changes)."""
+    lines = ["// GENERATED by lib/wmm_engine.py from the MIR-derived event templates of /repo's current sources.",
+             "// (kind: 1 add, 2 sub, 3 load, 4 fence; ord: 0 Relaxed, 1 Acquire, 2 Release, 3 AcqRel, 4 SeqCst; operand)", ""]
+    for op in ["clone", "drop", "strong_count", "count", "is_unique", "get_mut", "try_unique", "try_unwrap", "make_mut", "unwrap_or_clone"]:
+        lines.append("#[allow(non_snake_case)]")
+        lines.append(f"pub fn EXP_{op.upper()}(c: usize) -> &'static [(u8, u8, usize)] {{")
+        lines.append("    match c {")
+        for c in (1, 2, 3):
+            evs = sequential_events(templates[op], c)
+            lines.append(f"        {c} => &[" + ", ".join(f"({k}, {o}, {v})" for k, o, v in evs) + "],")
+        lines.append("        _ => panic!(\"no expectation generated for this count\"),")
+        lines.append("    }")
+        lines.append("}")
+    txt = "\n".join(lines) + "\n"
+    path = os.path.join(VERIF, "kani", "src", "c02_expected.rs")
+    old = open(path).read() if os.path.exists(path) else None
+    if old != txt:
+        with open(path, "w") as f:
+            f.write(txt)
+    return path
+
+
+def prepare(prop):
+    """Called before the Kani part of C02: regenerate the expectation table from the current MIR."""
+    mirpath, _ = dump_mir()
+    sys.path.insert(0, WMM)
+    import mirsym
+    try:
+        templates, _ = mirsym.extract(open(mirpath).read())
+        write_expected(templates)
+    finally:
+        try:
+            os.remove(mirpath)
+            os.remove(mirpath + ".err")
+        except OSError:
+            pass
+
+
 def _z3v():
     try:
         import z3
